@@ -15,7 +15,14 @@ open GunYu
 structure XCfg where
   tgtMajor : Nat := 7
   fnExists : Nat := 0
+  /-- target minor version (part of the version token; the code consults the major only) -/
+  tgtMinor : Nat := 0
   deriving Repr, Inhabited
+
+/-- the target knows XGROUP CREATECONSUMER (Redis 6.2+) — NOT consulted by the code: it never
+    emits that command (known finding C03-F1), used by the specification side only -/
+def XCfg.hasCreateConsumer (x : XCfg) : Bool :=
+  decide (x.tgtMajor > 6) || (decide (x.tgtMajor = 6) && decide (x.tgtMinor ≥ 2))
 
 def cmdB (name : Bytes) (args : List Bytes) : Cmd := ⟨name, args.map Arg.b⟩
 
@@ -316,6 +323,9 @@ def consumerPel (key group consumer : Bytes) (nacks : List (Bytes × Nat × Nat)
         some (cmdB b!"XCLAIM" [key, group, consumer, b!"0", id, b!"TIME", natToDec t,
                 b!"RETRYCOUNT", natToDec c, b!"JUSTID", b!"FORCE"] :: cs, r')
 
+/-- the consumers of a group: one XCLAIM per entry of a consumer's PEL; a consumer with an empty
+    PEL leaves NO command ("Empty consumers are discarded", rdb_object.go — known finding
+    C03-F1: Redis' rewriteStreamObject emits XGROUP CREATECONSUMER for it) -/
 def streamConsumers (v3 : Bool) (key group : Bytes) (nacks : List (Bytes × Nat × Nat)) :
     Nat → Bytes → Option (List Cmd × Bytes)
   | 0, bs => some ([], bs)
